@@ -362,3 +362,5 @@ func namedTypePkg(t types.Type) string {
 	}
 	return ""
 }
+
+func typesPtr(t types.Type) types.Type { return types.NewPointer(t) }
